@@ -47,7 +47,7 @@ THEOREMS = [
     "C17.AsIs.tlwt_boundary_counter",
     "C17.AsIs.tlwt_no_age_rule",
 ]
-RULE = ("30% of the cases are RUN in fractional seconds (1/10 or 1/100 s per unit on the float clock of TestScheduler, float or timedelta durations) while generated, modelled and judged in exact integer units: elements exactly at a boundary / gaps exactly equal to a due time stay exact; 20% of the non-mapper cases subscribe the SAME observable instance a second time (overlapping or later) and compare with a fresh single subscription; timelines of 0..7 elements + terminal (completed/error/none, 12% non-conforming or with pre-subscription messages) placed before/at/after "
+RULE = ("25% of the cases of the operators that take a scheduler give them the scheduler of the timeline explicitly and subscribe with a DIFFERENT, never started one (the operator-level one must win); 30% of the timeout / timeout_with_mapper cases pass the fallback / first_timeout as bare abc.ObservableBase implementations; 30% of the cases are RUN in fractional seconds (1/10 or 1/100 s per unit on the float clock of TestScheduler, float or timedelta durations) while generated, modelled and judged in exact integer units: elements exactly at a boundary / gaps exactly equal to a due time stay exact; 20% of the non-mapper cases subscribe the SAME observable instance a second time (overlapping or later) and compare with a fresh single subscription; timelines of 0..7 elements + terminal (completed/error/none, 12% non-conforming or with pre-subscription messages) placed before/at/after "
         "every boundary (subscription+duration, absolute end/start times incl. past ones, completion-duration, last element+due time), bursts, "
         "gaps d-1/d/d+1, simultaneous arrivals; hot and cold sources; non-trivial = output differs from the source as seen or a timer decided the outcome")
 ASSUMPTIONS = ["virtual time in integer ticks on TestScheduler; hot source messages are scheduled before the operator's timers (source wins ties); "
@@ -134,6 +134,10 @@ def cases(rng, tier):
                 if t2 is not None:
                     c["sub2"] = t2          # the same observable instance subscribed again: state must be per subscription
             c["msgs"] = T.to_cold(msgs) if src == "cold" else msgs
+            if op != "timeout_with_mapper":
+                T.gen_opsched(rng, c)          # operator-level scheduler (of the timeline) + a different subscribe-level scheduler
+            if op in ("timeout", "timeout_with_mapper") and rng.random() < 0.3:
+                c["bare"] = True               # fallback / first_timeout as bare abc.ObservableBase implementations
             T.gen_scale(rng, c)          # fractional seconds / timedelta durations
             yield c
 
@@ -153,24 +157,24 @@ def impl(case):
         return T.utc(c["at"]) if c["abs"] else c["at"]
 
     if op == "take_with_time":
-        return T.run_test(case, lambda s, xs: xs.pipe(ops.take_with_time(case["d"])))
+        return T.run_test(case, lambda s, xs: xs.pipe(ops.take_with_time(case["d"], **T.sk(case, s))))
     if op == "skip_with_time":
-        return T.run_test(case, lambda s, xs: xs.pipe(ops.skip_with_time(case["d"])))
+        return T.run_test(case, lambda s, xs: xs.pipe(ops.skip_with_time(case["d"], **T.sk(case, s))))
     if op == "take_until_with_time":
-        return T.run_test(case, lambda s, xs: xs.pipe(ops.take_until_with_time(when(case))))
+        return T.run_test(case, lambda s, xs: xs.pipe(ops.take_until_with_time(when(case), **T.sk(case, s))))
     if op == "skip_until_with_time":
-        return T.run_test(case, lambda s, xs: xs.pipe(ops.skip_until_with_time(when(case))))
+        return T.run_test(case, lambda s, xs: xs.pipe(ops.skip_until_with_time(when(case), **T.sk(case, s))))
     if op == "take_last_with_time":
-        return T.run_test(case, lambda s, xs: xs.pipe(ops.take_last_with_time(case["d"])))
+        return T.run_test(case, lambda s, xs: xs.pipe(ops.take_last_with_time(case["d"], **T.sk(case, s))))
     if op == "skip_last_with_time":
-        return T.run_test(case, lambda s, xs: xs.pipe(ops.skip_last_with_time(case["d"])))
+        return T.run_test(case, lambda s, xs: xs.pipe(ops.skip_last_with_time(case["d"], **T.sk(case, s))))
     if op == "timeout":
-        return T.run_test(case, lambda s, xs, other: xs.pipe(ops.timeout(when(case), other)), sources=("msgs", "other"))
+        return T.run_test(case, lambda s, xs, other: xs.pipe(ops.timeout(when(case), other, **T.sk(case, s))), sources=("msgs", "other"))
     if op == "timeout_with_mapper":
         import reactivex
 
         def build(s, xs, other):
-            first = T.mapper_observable(s, case["first"]) if case["first"] is not None else None
+            first = T.maybe_bare(case, T.mapper_observable(s, case["first"])) if case["first"] is not None else None
             return xs.pipe(ops.timeout_with_mapper(first, T.make_mapper(s, case, off=1), other))
 
         return T.run_test(case, build, sources=("msgs", "other"))
@@ -305,6 +309,7 @@ def nontrivial(case, io):
 def bucket(case, io):
     yield from T.shape(case, io)
     yield f"{case['op']}:second-subscription={'sub2' in case}"
+    yield f"{case['op']}:opsched={bool(case.get('opsched'))}:bare={bool(case.get('bare'))}"
     yield f"{case['op']}:scale={case.get('scale', 1)}:td={bool(case.get('td'))}"
     if case["op"] in ("take_with_time", "skip_with_time", "take_until_with_time", "skip_until_with_time"):
         b = boundary(case)
